@@ -150,6 +150,7 @@ class Comparer:
         self.raw_disagreements = 0
         self.resource_dependent = 0
         self.both_timeout = 0
+        self.stack_retries = 0
         self.s2_timeouts = 0          # stage 2 ran into the time limit where stage 1 did not (confirmed by the long retry)
         self.aborted = False          # circuit breaker: a stage 2 that hangs on everything must not cost 7 time limits per input
         self.by_stream = {}
@@ -162,7 +163,8 @@ class Comparer:
         b = run_one(self.s2, args, data, self.cwd, timeout, env)
         d = differ(a, b)
         retried = False
-        if d and (a[0] < 0 or b[0] < 0 or a[0] >= 128 or b[0] >= 128) and not (a[0] == -9 or b[0] == -9):
+        if d and (a[0] < 0 or b[0] < 0 or a[0] >= 128 or b[0] >= 128) and not (a[0] == -9 or b[0] == -9) and self.stack_retries < 40:
+            self.stack_retries += 1        # bounded: a stage 2 that crashes on everything must not double the cost of every input
             # one side died from a signal: frame sizes differ between the two builds, so stack exhaustion may hit only one of them
             retried = True
             a2 = run_one(self.s1, args, data, self.cwd, timeout * 3, env, stack=4 << 30)
@@ -173,8 +175,8 @@ class Comparer:
             if self.s2_timeouts >= 8:
                 return a, b, d, None          # already established on 8 inputs: no more long retries
             retried = True
-            a2 = run_one(self.s1, args, data, self.cwd, min(timeout * 6, 90), env)
-            b2 = run_one(self.s2, args, data, self.cwd, min(timeout * 6, 90), env)
+            a2 = run_one(self.s1, args, data, self.cwd, min(timeout * 6, 60), env)
+            b2 = run_one(self.s2, args, data, self.cwd, min(timeout * 6, 60), env)
             if differ(a2, b2) is None:
                 return a, b, None, 'time'
             if b2[0] == -9 and a2[0] != -9:
@@ -199,10 +201,11 @@ class Comparer:
             a, b, d, note = self.compare(args, data, timeout)
             return j, a, b, d, note
         res = []
-        for k in range(0, len(jobs), 64):
+        step = max(8, vlib.NCPU)         # one round of the pool at a time, so that the breaker can act between rounds
+        for k in range(0, len(jobs), step):
             if self.aborted:
                 break
-            res += vlib.parallel_map(one, jobs[k:k + 64])
+            res += vlib.parallel_map(one, jobs[k:k + step])
             if self.s2_timeouts >= 8 and sum(1 for r in res if r[3] and r[2][0] == -9 and r[1][0] != -9) >= 24:
                 self.aborted = True           # stage 2 does not terminate on input after input: the differences found so far are reported
         stt['skipped_after_abort'] = stt.get('skipped_after_abort', 0) + len(jobs) - len(res)
@@ -597,7 +600,7 @@ def run(ctx):
             # ---- a: fixed point, every target
             t0 = time.time()
             own_items = [('own:' + fn, st.pre[fn], []) for fn in sorted(st.pre)]
-            res = cmp_.batch('own', own_items, timeout=60)
+            res = cmp_.batch('own', own_items, timeout=30)
             fp_bad = []
             n_fp = 0
             for (label, data, args, h), a, b, d, note in res:
